@@ -457,6 +457,51 @@ def check_rem_first(P, ctx):
     ctx.floor(rule, 3)
 
 
+def check_seq_layout(P, ctx, rule='C04.layout'):
+    """element addressing of Array and List agrees between allocation, access and release, symbolically in sizeof(struct Header)"""
+    Hs = poly.Poly.atom('H')
+    ts = poly.Poly.atom('arg0->tsize')
+    W = poly.Poly.const(8)
+    ab = util.accessor_body(P, 'Array_Step')
+    ok = ab is not None and poly.from_expr(ir.canon(ab[1])) == ts + Hs
+    ctx.check(ok, rule, 'Array_Step', site(P.fn('Array_Step')), 'an Array slot is header + element size bytes')
+    ab = util.accessor_body(P, 'Array_Item')
+    ok = ab is not None
+    if ok:
+        N = util.Norm(P, ab[0])
+        p_ = poly.from_expr(N.inline_only(ir.canon(ab[1]), 3)) - poly.Poly.atom('arg0->data')
+        ok = p_ == (ts + Hs) * poly.Poly.atom('arg1') + Hs
+    ctx.check(ok, rule, 'Array_Item', site(P.fn('Array_Item')), 'element i is at data + i*step + header')
+    fn = P.fn('Array_Alloc')
+    g = P.cfg(fn)
+    N = util.Norm(P, fn, expand_locals=True)
+    ms = [c for n in g.live() if n['expr'] is not None for c in ir.calls(n['expr']) if ir.callee_name(c) == 'memset']
+    hi = [c for n in g.live() if n['expr'] is not None for c in ir.calls(n['expr']) if ir.callee_name(c) == 'header_init']
+    slot = poly.Poly.atom('arg0->data') + (ts + Hs) * poly.Poly.atom('arg1')
+    ok = len(ms) == 1 and len(hi) == 1 and poly.from_expr(N.canon(ms[0][2][0])) == slot and poly.from_expr(N.canon(ms[0][2][2])) == ts + Hs and \
+        poly.from_expr(N.canon(hi[0][2][0])) == slot
+    ctx.check(ok, rule, 'Array_Alloc', site(fn), 'a new slot is zeroed over one whole step and stamped at the slot start')
+    tl = poly.Poly.atom('arg0->tsize')
+    fn = P.fn('List_Alloc')
+    g = P.cfg(fn)
+    N = util.Norm(P, fn, expand_locals=False)
+    cs = [c for n in g.live() if n['expr'] is not None for c in ir.calls(n['expr']) if ir.callee_name(c) == 'calloc']
+    hi = [c for n in g.live() if n['expr'] is not None for c in ir.calls(n['expr']) if ir.callee_name(c) == 'header_init']
+    ok = len(cs) == 1 and len(hi) == 1 and poly.from_expr(N.canon(cs[0][2][0])) * poly.from_expr(N.canon(cs[0][2][1])) == W * poly.Poly.const(2) + Hs + tl and \
+        poly.from_expr(N.canon(hi[0][2][0])) - poly.Poly.atom('item') == W * poly.Poly.const(2)
+    ctx.check(ok, rule, 'List_Alloc', site(fn), 'a List node is two link words, a header and the element; the header sits behind the links')
+    for f, want in (('List_Next', -(Hs + W)), ('List_Prev', -(Hs + W * poly.Poly.const(2)))):
+        ab = util.accessor_body(P, f)
+        ok = ab is not None and poly.from_expr(ir.canon(ab[1])) - poly.Poly.atom('arg1') == want
+        ctx.check(ok, rule, f, site(P.fn(f)), 'link word at its offset before the element (header + %s words back)' % ('one' if f == 'List_Next' else 'two'))
+    fn = P.fn('List_Free')
+    N = util.Norm(P, fn)
+    fr = [c for c, _ in ir.all_calls(fn['body']) if ir.callee_name(c) == 'free']
+    ok = len(fr) == 1 and poly.from_expr(N.canon(fr[0][2][0])) - poly.Poly.atom('arg1') == -(Hs + W * poly.Poly.const(2))
+    ctx.check(ok, rule, 'List_Free', site(fn), 'the node block freed is the element minus header minus two link words: the block List_Alloc obtained')
+    ctx.floor(rule, 7)
+
+
 def run(ctx, load):
     P = load(UNITS, 'default')
     ctx.stats['units'] = set(UNITS)
@@ -467,6 +512,7 @@ def run(ctx, load):
     check_list_links(P, ctx)
     check_sort(P, ctx)
     check_rem_first(P, ctx)
+    check_seq_layout(P, ctx)
     from .rules_c05 import check_fresh_slot
     from .effects import Effects
     before = len(ctx.obs)
